@@ -230,6 +230,9 @@ func (w *World) buildEffects() *Effects {
 				case *ssa.Go:
 					e.add(&Site{Fn: fn, Instr: in, Kind: SGo, Pos: in.Pos()})
 				case *ssa.MapUpdate:
+					if mk, isMk := in.Map.(*ssa.MakeMap); isMk && localOnlyMap(mk) {
+						break // a scratch map of this function: not state
+					}
 					s := &Site{Fn: fn, Instr: in, Kind: SMapSet, Pos: in.Pos()}
 					if o, f, ok := fieldOf(in.Map); ok {
 						s.Owner, s.Field = typeName(o), f
@@ -267,6 +270,9 @@ func (w *World) buildEffects() *Effects {
 				switch v := c.Value.(type) {
 				case *ssa.Builtin:
 					if v.Name() == "delete" {
+						if mk, isMk := c.Args[0].(*ssa.MakeMap); isMk && localOnlyMap(mk) {
+							break // a scratch map of this function: not state
+						}
 						s := &Site{Fn: fn, Instr: in, Kind: SMapDel, Pos: pos}
 						if o, f, ok := fieldOf(c.Args[0]); ok {
 							s.Owner, s.Field = typeName(o), f
